@@ -51,6 +51,10 @@ abbrev len (b : Bytes) : Int := (b.length : Int)
 def idx (b : Bytes) (i : Int) : X Byte :=
   if 0 ≤ i then (match b[i.toNat]? with | some v => .ok v | none => .panic) else .panic
 
+/-- `xs[i]` for a slice of another element type -/
+def lidx {α} (l : List α) (i : Int) : X α :=
+  if 0 ≤ i then (match l[i.toNat]? with | some v => .ok v | none => .panic) else .panic
+
 /-- `b[lo:hi]` -/
 def slice (b : Bytes) (lo hi : Int) : X Bytes :=
   if 0 ≤ lo ∧ lo ≤ hi ∧ hi ≤ (b.length : Int) then .ok ((b.drop lo.toNat).take (hi.toNat - lo.toNat)) else .panic
@@ -73,10 +77,10 @@ def u16 (b : Bytes) : X UInt16 :=
   | a :: c :: _ => .ok ((a.toUInt16 <<< 8) ||| c.toUInt16)
   | _ => .panic
 
-/-- `binary.BigEndian.Uint32(b)` -/
+/-- `binary.BigEndian.Uint32(b)`: the big-endian value of the first four bytes -/
 def u32 (b : Bytes) : X UInt32 :=
   match b with
-  | a :: c :: d :: e :: _ => .ok ((a.toUInt32 <<< 24) ||| (c.toUInt32 <<< 16) ||| (d.toUInt32 <<< 8) ||| e.toUInt32)
+  | a :: c :: d :: e :: _ => .ok (UInt32.ofNat (beN [a, c, d, e]))
   | _ => .panic
 
 /-- `binary.BigEndian.Uint64(b)`: the big-endian value of the first eight bytes -/
@@ -87,7 +91,9 @@ def u64 (b : Bytes) : X UInt64 :=
 
 /-- the two bytes `binary.BigEndian.PutUint16` / `AppendUint16` write -/
 def be16 (v : UInt16) : Bytes := [(v >>> 8).toUInt8, v.toUInt8]
-def be32 (v : UInt32) : Bytes := [(v >>> 24).toUInt8, (v >>> 16).toUInt8, (v >>> 8).toUInt8, v.toUInt8]
+/-- the four bytes `PutUint32` / `AppendUint32` write: `byte(v>>24), byte(v>>16), byte(v>>8), byte(v)` -/
+def be32 (v : UInt32) : Bytes :=
+  [UInt8.ofNat (v.toNat / 16777216), UInt8.ofNat (v.toNat / 65536), UInt8.ofNat (v.toNat / 256), UInt8.ofNat v.toNat]
 
 /-- `binary.BigEndian.PutUint16(b[lo:hi], v)` for a slice `b` the function owns: bytes `lo`, `lo+1` are overwritten -/
 def putU16At (b : Bytes) (lo hi : Int) (v : UInt16) : X Bytes :=
